@@ -180,6 +180,23 @@ func main {
 	println(unsafe.Sizeof(r), unsafe.Alignof(r.big), unsafe.Offsetof(r.big), unsafe.Offsetof(r.w))
 }
 `},
+	// output-heavy programs: integers of every width go through the runner's print host functions
+	{"ints_o", "o.wa", `
+func main {
+	for i := 0; i < 12; i++ {
+		println(100000 + i*7919)
+	}
+	println(u32(4000000000) - u32(7))
+}
+`},
+	{"ints_p", "p.wa", `
+func main {
+	x: i64 = 1 << 40
+	for i := 0; i < 9; i++ {
+		println(2000003+i*104729, x+i64(i), u64(x)*3+u64(i))
+	}
+}
+`},
 	{"fmt_i", "i.wa", `
 import "fmt"
 
@@ -234,6 +251,15 @@ var taggedProgs = func() []int {
 	}
 	return r
 }()
+
+func progIndex(name string) int {
+	for i, p := range corpus {
+		if p.Name == name {
+			return i
+		}
+	}
+	panic(name)
+}
 
 var sizesProg = func() int {
 	for i, p := range corpus {
